@@ -457,6 +457,10 @@ func TestC17(t *testing.T) {
 				i := gen.Pick(rt, "negwhich", min(nwin, 2))
 				k.win[i] = -rapid.IntRange(1, 4096).Draw(rt, "neg")
 			}
+		case 5, 6: // no-shift convention: a value bit below the window
+			if nwin == 3 && k.win[2] == 0 && off > 0 {
+				k.input.SetBit(k.input, rapid.IntRange(0, off-1).Draw(rt, "low_bit"), 1)
+			}
 		case 4:
 			if gen.Pick(rt, "four", 3) == 0 {
 				k.win = []int{off, w, 1, 0}
